@@ -326,12 +326,16 @@ def nonmall_types(F, scripts):
 _CACHE = {}
 
 
-def results(F):
+def results(F, tier="quick"):
     if "r" in _CACHE:
         return _CACHE["r"]
     import multiprocessing as mp
-    nm = nonmall_types(F, FAMILY)
-    jobs = [(t, c, nm[(t, c)]) for (t, c) in FAMILY]
+    fam = list(FAMILY)
+    if tier != "quick":
+        from . import decoder
+        fam += [s for s in decoder.EXTRA_SCRIPTS if s not in fam]
+    nm = nonmall_types(F, fam)
+    jobs = [(t, c, nm[(t, c)]) for (t, c) in fam]
     with mp.Pool(min(16, os.cpu_count() or 4)) as pool:
         res = pool.map(_work, jobs, chunksize=1)
     _CACHE["r"] = res
@@ -340,7 +344,7 @@ def results(F):
 
 def check(chk, F, rule, kind, desc):
     chk.rule(rule, desc)
-    res = results(F)
+    res = results(F, chk.tier)
     total = 0
     for text, n, out in res:
         total += n
